@@ -360,6 +360,50 @@ theorem C12_uninitialised_history (c : Ctx) (hwin : c.win = none) (as : List Arr
     simp only [runAccepted, hna, ↓reduceIte, List.nil_append, hsame]
     exact ih c hwin (fun b hb => hno b (List.mem_cons_of_mem _ hb))
 
+-- C12: initialised start states persisted under another window size ----------------------
+
+/-- the context a process starts with after `initialize_from_persisted` of a persisted
+`{"index", "bitfield"}` into a window of `size` slots (the driver's `i:<index>:<bitfield>`) -/
+def loadedCtx (size : Nat) (echo : Option Nat) (index bitfield : Nat) : Ctx :=
+  { size, win := some (RW.fromPersisted size index bitfield), echoRecovery := echo }
+
+/-- whatever was persisted (by a window of whatever size), the loaded context is well formed, so
+every theorem of this file applies to it -/
+theorem C12_persisted_start_wf (size : Nat) (hs : 0 < size) (echo : Option Nat) (i b : Nat) :
+    (loadedCtx size echo i b).wf := by
+  refine ⟨hs, ?_⟩
+  intro w hw
+  simp only [loadedCtx, Option.some.injEq] at hw
+  subst hw
+  exact ⟨RW.fromPersisted_size size i b, RW.fromPersisted_wf hs i b⟩
+
+/-- **C12 (persisted start state, every window size).** Every number the persisted state records
+as seen — below its index, or with its bit set at any position, also at or beyond the configured
+window size (the state was written by a larger window) — is never accepted in any arrival
+sequence after loading. -/
+theorem C12_persisted_seen_never_accepted (size : Nat) (echo : Option Nat) (i b n : Nat)
+    (hseen : n < i ∨ b.testBit (n - i) = true) (as : List Arrival) :
+    (runAccepted (loadedCtx size echo i b) as).count n = 0 :=
+  refused_never_accepted ⟨_, rfl, RW.fromPersisted_keeps_seen size i b n hseen⟩ as
+
+/-- … in terms of the window that wrote the state: what a well-formed window of any size refuses
+stays refused by a window of any other size loaded from its `persist()`. -/
+theorem C12_resize_keeps_refused (w : RW) (size n : Nat) (h : w.isValid n = false) :
+    (RW.fromPersisted size w.index w.bitfield).isValid n = false :=
+  RW.fromPersisted_keeps_refused w size n h
+
+/-- … and loading loses nothing else: a number at or above the loaded index whose bit is clear is
+accepted when it arrives authentically (so a reduced size costs only the numbers the smaller
+window cannot represent). -/
+theorem C12_persisted_unseen_accepted (size : Nat) (echo : Option Nat) (i b : Nat) (a : Arrival)
+    (hauth : a.authentic = true) (hge : (RW.fromPersisted size i b).index ≤ a.seq)
+    (hclear : b.testBit (a.seq - i) = false) :
+    (unprotect (loadedCtx size echo i b) a).2 = .accepted := by
+  have hv := RW.fromPersisted_frame size i b a.seq hge hclear
+  obtain ⟨w', hst⟩ := RW.strikeOut_isSome hv
+  unfold unprotect
+  simp [loadedCtx, hv, hauth, hst]
+
 -- non-vacuity ----------------------------------------------------------------------------
 
 /-- a concrete context with a window of 32 that has seen 5, 0, 1, 2 and then 35/36 -/
@@ -383,5 +427,12 @@ example : Covered exampleCtx [] := by
 example : (run { size := 32, win := none, echoRecovery := some 7 }
     [⟨9, true, none⟩, ⟨9, true, some 7⟩, ⟨9, true, some 7⟩, ⟨10, true, none⟩]).2
     = [.replayEcho, .accepted, .replayError, .accepted] := by decide
+
+/-- numbers 0..20 accepted by a window of 32, persisted, loaded into a window of 8: the window
+moves up to 13..20 and every replay is refused, the next fresh number accepted -/
+example : RW.fromPersisted 8 0 2097151 = { size := 8, index := 13, bitfield := 255 } := by decide
+example : (run (loadedCtx 8 none 0 2097151)
+    [⟨15, true, none⟩, ⟨20, true, none⟩, ⟨9, true, none⟩, ⟨21, true, none⟩]).2
+    = [.replayError, .replayError, .replayError, .accepted] := by decide
 
 end Aiocoap.Oscore
